@@ -1,6 +1,7 @@
 package rules
 
 import (
+	"go/token"
 	"fmt"
 	"go/types"
 	"sort"
@@ -305,7 +306,7 @@ func constCallArgs(fn *ssa.Function, calleeName string, argIdx int) []string {
 		for _, in := range b.Instrs {
 			if call, ok := in.(*ssa.Call); ok {
 				if cal := call.Call.StaticCallee(); cal != nil && cal.Name() == calleeName && argIdx < len(call.Call.Args) {
-					if s, ok := prog.ConstString(call.Call.Args[argIdx]); ok {
+					for _, s := range stringValuesOf(call.Call.Args[argIdx], 4) {
 						set[s] = true
 					}
 				}
@@ -313,6 +314,83 @@ func constCallArgs(fn *ssa.Function, calleeName string, argIdx int) []string {
 		}
 	}
 	return sortedKeys(set)
+}
+
+// stringValuesOf enumerates the constant strings a value can hold: a constant,
+// a phi of such, or an element read from a []string / [N]string literal (local
+// or a package-level variable initialised with a literal). An element of
+// unknown origin contributes nothing.
+func stringValuesOf(v ssa.Value, depth int) []string {
+	if depth == 0 {
+		return nil
+	}
+	if s, ok := prog.ConstString(v); ok {
+		return []string{s}
+	}
+	switch v := v.(type) {
+	case *ssa.Phi:
+		var out []string
+		for _, e := range v.Edges {
+			out = append(out, stringValuesOf(e, depth-1)...)
+		}
+		return out
+	case *ssa.ChangeType:
+		return stringValuesOf(v.X, depth-1)
+	case *ssa.Extract:
+		// range over a string-keyed literal is not handled; next() of a slice range is lowered to IndexAddr
+		return nil
+	case *ssa.UnOp:
+		if v.Op != token.MUL {
+			return nil
+		}
+		ia, ok := v.X.(*ssa.IndexAddr)
+		if !ok {
+			return nil
+		}
+		return literalElems(ia.X, depth-1)
+	}
+	return nil
+}
+
+// literalElems returns the constant strings stored into the backing array of a slice/array value.
+func literalElems(x ssa.Value, depth int) []string {
+	if depth == 0 {
+		return nil
+	}
+	switch x := x.(type) {
+	case *ssa.Slice:
+		return literalElems(x.X, depth-1)
+	case *ssa.Alloc:
+		var out []string
+		for _, r := range *x.Referrers() {
+			ia, ok := r.(*ssa.IndexAddr)
+			if !ok {
+				continue
+			}
+			for _, rr := range *ia.Referrers() {
+				if st, ok := rr.(*ssa.Store); ok && st.Addr == ssa.Value(ia) {
+					if s, ok := prog.ConstString(st.Val); ok {
+						out = append(out, s)
+					}
+				}
+			}
+		}
+		return out
+	case *ssa.UnOp:
+		if g, ok := x.X.(*ssa.Global); ok && x.Op == token.MUL {
+			// the package initialiser stores the literal into the variable
+			if init := g.Pkg.Func("init"); init != nil {
+				for _, b := range init.Blocks {
+					for _, in := range b.Instrs {
+						if st, ok := in.(*ssa.Store); ok && st.Addr == ssa.Value(g) {
+							return literalElems(st.Val, depth-1)
+						}
+					}
+				}
+			}
+		}
+	}
+	return nil
 }
 
 func constStoredStrings(fn *ssa.Function) []string {
